@@ -114,27 +114,36 @@ func valKey(v ref.Val) string {
 // printer ties ~A / ~S to princ-to-string / prin1-to-string of the same
 // object as computed by the real interpreter.
 type printer struct {
-	cache map[string]string
-	err   *sl.Err
+	cache  map[string]string
+	ecache map[string]*sl.Err
+	err    *sl.Err
 }
 
 func (p *printer) call(fn string, v ref.Val) string {
 	key := fn + valKey(v)
 	if s, ok := p.cache[key]; ok {
+		if e := p.ecache[key]; e != nil && p.err == nil {
+			p.err = e
+		}
 		return s
 	}
 	scope := slip.NewScope()
 	scope.Let(slip.Symbol("c15-x"), toObj(v))
 	res, err := sl.Eval(scope, "(with-output-to-string (c15-s) ("+fn+" c15-x c15-s))")
 	out := ""
+	var perr *sl.Err
 	if err != nil {
-		if p.err == nil {
-			p.err = err
-		}
+		perr = err
 	} else if s, ok := res.(slip.String); ok {
 		out = string(s)
-	} else if p.err == nil {
-		p.err = &sl.Err{Class: "not-a-string", Msg: fn + " returned " + sl.Show(res)}
+	} else {
+		perr = &sl.Err{Class: "not-a-string", Msg: fn + " returned " + sl.Show(res)}
+	}
+	if perr != nil {
+		p.ecache[key] = perr
+		if p.err == nil {
+			p.err = perr
+		}
 	}
 	p.cache[key] = out
 	return out
@@ -180,7 +189,7 @@ func checkToString(x *fw.Ctx, v ref.Val) {
 	}
 }
 
-var thePrinter = &printer{cache: map[string]string{}}
+var thePrinter = &printer{cache: map[string]string{}, ecache: map[string]*sl.Err{}}
 
 // outcome of running the real format.
 type outcome struct {
@@ -738,9 +747,11 @@ func init() {
 		ID: "C15",
 		Rule: "one call of format = control string + arguments. Fixed blocks (same for every seed): ~@R and ~:@R for every n in 1..3999; ~R and ~:R for every n in -200..10000 " +
 			"and for structured numbers around every power of ten below 10^66, plus seeded numbers below 10^66 built group by group; ~D ~B ~O ~X over the full grid mods x mincol x padchar x commachar x interval x boundary integers; " +
-			"a probe list that sweeps each directive's parameters (every printable ASCII pad character, ~T over colnum x colinc x column, ~C over characters, block nestings, ~[ shapes). " +
+			"a probe list that sweeps each directive's parameters (every printable ASCII pad character, ~T over colnum x colinc x column, ~C over characters, block nestings, ~[ shapes; " +
+			"sign x modifier x digit count 1..9 x comma interval for ~D ~B ~O ~X; every outer conditional kind x inner block kind x what follows; ~{ ~:{ ~@{ ~:@{ x limit x nested element shapes; " +
+			"~* with every modifier and parameter outside and inside iterations, ~?, ~( and ~[; ~? / ~@? given control strings that contain blocks; ~A/~S of floats, ratios, vectors, arrays, dotted lists, quote forms against princ/prin1). " +
 			"Then seeded compositions of up to 4 pieces, nested to depth 3, drawn from all directives of the property with literal, v and # parameters and every modifier; arguments are " +
-			"integers of every magnitude (fixnum/bignum boundary grid, up to 215 bits), strings (incl. ~ and quote characters), characters, symbols, lists of length 0..4 and nested lists. " +
+			"integers of every magnitude (fixnum/bignum boundary grid, up to 215 bits), strings (incl. ~ and quote characters), characters, symbols, lists of length 0..4 and nested lists, and other objects (floats, ratios, vectors, arrays, dotted lists, quote forms) for ~A/~S. " +
 			"1 case in 8 of the seeded part carries exactly one construct known to be broken on the pinned tree (dirty stream); the rest avoid all of them (clean stream). " +
 			"distinct = distinct (control, arguments); non-trivial = the oracle gives a text (legal control string with enough arguments of the right type)",
 		N:     nCases,
